@@ -92,10 +92,10 @@ def check_edge_kinds(prog):
             a = n["i"]
             if j == a + 1 and not is_ret(n) and not is_uncond(n):
                 continue
-            if "name" in n and n["name"] != "__return__" and prog.label_at.get(n["name"]) == j \
+            if "name" in n and n["name"] != "<return>" and prog.label_at.get(n["name"]) == j \
                     and n["kind"] in ("JumpLink", "Branch") and not (n["kind"] == "JumpLink" and n.get("rd") == 1):
                 continue
-            if n["kind"] == "JumpLink" and n.get("name") == "__return__" and is_ret(prog.nodes[j]):
+            if n["kind"] == "JumpLink" and n.get("name") == "<return>" and is_ret(prog.nodes[j]):
                 continue
             return f"edge {a}->{j} is neither a fall-through, a jump to the written label, nor a return merge"
     return None
@@ -194,7 +194,7 @@ def check_functions(prog, funcs, funclabels, parse_nodes):
             n = prog.nodes[i]
             if is_ret(n) and i != f["exit"]:
                 return f"function at {f['entry']}: second return {i} does not lead to the exit"
-            if n["kind"] == "JumpLink" and n.get("name") == "__return__":
+            if n["kind"] == "JumpLink" and n.get("name") == "<return>":
                 if not any(is_ret(prog.nodes[j]) for j in n["nexts"]):
                     return f"function at {f['entry']}: merged return {i} does not lead to a return"
     for n in prog.nodes:
@@ -428,4 +428,4 @@ def run_and_check_values(prog, facts, rng, ecalls, max_steps=2500):
 
 
 def oracle_is_ret(n):
-    return is_ret(n) or (n["kind"] == "JumpLink" and n.get("name") == "__return__")
+    return is_ret(n) or (n["kind"] == "JumpLink" and n.get("name") == "<return>")
